@@ -39,27 +39,29 @@ def pyIndex (pl : List Int) (n : Int) : Option Int :=
 def plIndex (a b : Int) : Int := b * (b + 1) / 2 + a
 
 /-- one sample's LPL row when PL is present. `pl` already has VCF-missing mapped to -1.
-    `ploidy = 1`: `a = la, b = 0`; `ploidy = 2`: the pairs above.  `lpl[b == FILL] = FILL`. -/
+    `ploidy = 1`: `a = la, b = 0`; `ploidy = 2`: the pairs above.  `lpl[b == FILL] = FILL`.
+    When `pl` has a single column (PL missing in every sample) and fewer columns than local
+    genotypes it is broadcast — wide enough for every index (after the repair of finding F10),
+    so every lookup returns that column.  Fewer columns otherwise: numpy raises (`none`). -/
 def lplRow (ploidy : Nat) (laaRow : List Int) (pl : List Int) : Option (List Int) :=
   let la := (0 : Int) :: laaRow
   let ab : List (Int × Int) := if ploidy = 1 then la.map fun a => (a, 0) else pairs la
-  -- pl is broadcast when it has a single column and fewer columns than needed
-  let pl' := if pl.length < ab.length ∧ pl.length = 1 then List.replicate ab.length (pl.headD 0) else pl
   if pl.length < ab.length ∧ pl.length ≠ 1 then none
   else
+    let look : Int → Option Int := if pl.length < ab.length then (fun _ => pl.head?) else pyIndex pl
     ab.mapM fun (a, b) =>
-      (pyIndex pl' (plIndex a b)).map fun v => if b = FILL then FILL else v
+      (look (plIndex a b)).map fun v => if b = FILL then FILL else v
 
 /-- the specification: entry `k` is the likelihood of the genotype formed by the `k`-th pair of
     local alleles when both are real alleles, fill otherwise -/
 def lplSpecRow (ploidy : Nat) (laaRow : List Int) (pl : List Int) : Option (List Int) :=
   let la := (0 : Int) :: laaRow
   let ab : List (Int × Int) := if ploidy = 1 then la.map fun a => (a, 0) else pairs la
-  let pl' := if pl.length < ab.length ∧ pl.length = 1 then List.replicate ab.length (pl.headD 0) else pl
   if pl.length < ab.length ∧ pl.length ≠ 1 then none
   else
     ab.mapM fun (a, b) =>
-      if a = FILL ∨ b = FILL then some FILL else pl'[(plIndex a b).toNat]?
+      if a = FILL ∨ b = FILL then some FILL
+      else if pl.length < ab.length then pl.head? else pl[(plIndex a b).toNat]?
 
 /-- number of local genotypes (PL absent on the record → all-missing row of this width) -/
 def lplWidth (ploidy : Nat) (laaW : Nat) : Option Nat :=
